@@ -17,6 +17,8 @@ import (
 	"sync"
 
 	"golang.org/x/tools/go/packages"
+
+	"decverif/internal/normalize"
 	"golang.org/x/tools/go/ssa"
 	"golang.org/x/tools/go/ssa/ssautil"
 )
@@ -82,28 +84,34 @@ type Config struct {
 	Name    string // amd64 | purego | 386
 	RepoDir string
 	Overlay map[string][]byte // absolute file name -> replacement content
+	// norm: contents produced by the normalisation pass (helpers extracted by a refactoring
+	// inlined back); layered over Overlay, not part of what Blind looks at
+	norm map[string][]byte
 }
 
 // Decimal field indexes (re-derived from the struct at load time).
 type FieldIdx struct{ Mant, Exp, Prec, Mode, Acc, Form, Neg int }
 
 type Model struct {
-	accessors map[*ssa.Function]int
-	Cfg       Config
-	Fset      *token.FileSet
-	Dec, Ctx  *packages.Package
-	Prog      *ssa.Program
-	SDec      *ssa.Package
-	SCtx      *ssa.Package
-	Funcs     []*ssa.Function // source functions with bodies (incl. closures), non-test, sorted
-	Externs   []*ssa.Function // body-less declarations (assembly)
-	Decimal   *types.Named
-	DecT      *types.Named
-	WordT     *types.Named
-	Context   *types.Named
-	F         FieldIdx
-	FieldN    []string
-	AsmFiles  []string
+	accessors  map[*ssa.Function]int
+	Cfg        Config
+	Fset       *token.FileSet
+	Dec, Ctx   *packages.Package
+	Prog       *ssa.Program
+	SDec       *ssa.Package
+	SCtx       *ssa.Package
+	Funcs      []*ssa.Function          // source functions with bodies (incl. closures), non-test, sorted
+	alias      map[*ssa.Function]string // renamed functions -> the construct name they had on the pinned tree
+	AliasNotes []string
+	NormNotes  []string        // what the normalisation pass did (helpers inlined back)
+	Externs    []*ssa.Function // body-less declarations (assembly)
+	Decimal    *types.Named
+	DecT       *types.Named
+	WordT      *types.Named
+	Context    *types.Named
+	F          FieldIdx
+	FieldN     []string
+	AsmFiles   []string
 
 	retSelf   map[*ssa.Function]bool
 	ctorMemo  map[*ssa.Function]bool
@@ -115,8 +123,118 @@ type Model struct {
 	ipdom     map[*ssa.Function][]int
 }
 
-// Load type-checks /repo under the given configuration and builds SSA.
+// Load type-checks /repo under the given configuration and builds SSA. Functions that the pinned
+// tree does not know (new unexported helpers) are first inlined back into their callers at source
+// level (package normalize), so that the rules see the flow graphs they were written against.
 func Load(cfg Config) *Model {
+	m := load1(cfg)
+	if len(pinnedFP[cfg.Name]) == 0 || os.Getenv("DECVERIF_NONORM") != "" {
+		return m
+	}
+	var notes []string
+	for round := 0; round < 24; round++ {
+		cur := m
+		isNew := func(f *types.Func) bool {
+			fn := cur.Prog.FuncValue(f)
+			if fn == nil || fn.Parent() != nil || f.Exported() {
+				return false
+			}
+			if _, aliased := cur.alias[fn]; aliased {
+				return false
+			}
+			_, known := pinnedFP[cfg.Name][cur.rawName(fn)]
+			return !known
+		}
+		merged := map[string][]byte{}
+		for k, v := range cfg.Overlay {
+			merged[k] = v
+		}
+		for k, v := range cfg.norm {
+			merged[k] = v
+		}
+		changed, ns, err := normalize.OneRound([]*packages.Package{m.Dec, m.Ctx}, isNew, merged)
+		notes = append(notes, ns...)
+		if err != nil {
+			notes = append(notes, "normalisation stopped: "+err.Error())
+			break
+		}
+		if len(changed) == 0 {
+			break
+		}
+		cfg2 := cfg
+		cfg2.norm = map[string][]byte{}
+		for k, v := range cfg.norm {
+			cfg2.norm[k] = v
+		}
+		for k, v := range changed {
+			cfg2.norm[k] = v
+		}
+		var m2 *Model
+		func() {
+			defer func() {
+				if r := recover(); r != nil {
+					notes = append(notes, fmt.Sprintf("normalisation abandoned: the inlined source does not load (%v)", r))
+				}
+			}()
+			m2 = load1(cfg2)
+		}()
+		if m2 == nil {
+			break
+		}
+		m, cfg = m2, cfg2
+	}
+	m.Cfg.norm = cfg.norm
+	if d := os.Getenv("DECVERIF_NORMDUMP"); d != "" {
+		for k, v := range cfg.norm {
+			os.WriteFile(d+"/"+filepath.Base(k), v, 0o644)
+		}
+	}
+	if len(cfg.norm) > 0 {
+		m.dropUncalledNew()
+		notes = append(notes, "positions in reports refer to the source after inlining")
+	}
+	m.NormNotes = notes
+	return m
+}
+
+// dropUncalledNew removes from the function list the new unexported functions that nothing calls
+// any more (their bodies live on in their former callers).
+func (m *Model) dropUncalledNew() {
+	called := map[*ssa.Function]bool{}
+	for _, fn := range m.Funcs {
+		for _, b := range fn.Blocks {
+			for _, in := range b.Instrs {
+				var ops []*ssa.Value
+				for _, o := range in.Operands(ops) {
+					if f, ok := (*o).(*ssa.Function); ok {
+						called[f] = true
+					}
+					if mc, ok := (*o).(*ssa.MakeClosure); ok {
+						if f, ok := mc.Fn.(*ssa.Function); ok {
+							called[f] = true
+						}
+					}
+				}
+			}
+		}
+	}
+	var keep []*ssa.Function
+	for _, fn := range m.Funcs {
+		root := fn
+		for root.Parent() != nil {
+			root = root.Parent()
+		}
+		_, known := pinnedFP[m.Cfg.Name][m.rawName(root)]
+		_, aliased := m.alias[root]
+		if !known && !aliased && root.Object() != nil && !root.Object().Exported() && !called[root] {
+			continue
+		}
+		keep = append(keep, fn)
+	}
+	m.Funcs = keep
+}
+
+func load1(cfg Config) *Model {
 	env := append(os.Environ(), "GOFLAGS=-mod=mod", "GOPROXY=off", "GOSUMDB=off", "GOWORK=off", "GOTOOLCHAIN=local", "CGO_ENABLED=0")
 	var flags []string
 	switch cfg.Name {
@@ -135,7 +253,7 @@ func Load(cfg Config) *Model {
 		Dir:        cfg.RepoDir,
 		Env:        env,
 		BuildFlags: flags,
-		Overlay:    cfg.Overlay,
+		Overlay:    mergeOverlay(cfg.Overlay, cfg.norm),
 		Tests:      false,
 	}
 	pkgs, err := packages.Load(pc, "./...")
@@ -298,6 +416,7 @@ func Load(cfg Config) *Model {
 	if len(m.Funcs) < 100 {
 		Fatal("only %d source functions found; expected several hundred", len(m.Funcs))
 	}
+	m.computeAliases()
 	m.computeRetSelf()
 	return m
 }
@@ -331,16 +450,23 @@ func (m *Model) InstrPos(in ssa.Instruction) string {
 
 // FuncName is the stable construct name of a function: "(*Decimal).Add",
 // "dec.mul", "dnorm", "context.(*Context).Add", closures "Add$1".
-func (m *Model) FuncName(fn *ssa.Function) string {
+func (m *Model) FuncName(fn *ssa.Function) string { return m.funcName(fn, true) }
+
+func (m *Model) funcName(fn *ssa.Function, aliased bool) string {
 	if fn == nil {
 		return "<nil>"
+	}
+	if aliased {
+		if a, ok := m.alias[fn]; ok {
+			return a
+		}
 	}
 	if fn.Parent() != nil {
 		n := fn.Name()
 		if i := strings.LastIndex(n, "$"); i >= 0 {
 			n = n[i:]
 		}
-		return m.FuncName(fn.Parent()) + n
+		return m.funcName(fn.Parent(), aliased) + n
 	}
 	prefix := ""
 	if fn.Pkg != nil && fn.Pkg == m.SCtx {
@@ -359,7 +485,9 @@ func (m *Model) FuncName(fn *ssa.Function) string {
 		if n, ok := t.(*types.Named); ok {
 			tn = n.Obj().Name()
 		}
-		if star != "" {
+		// the methods of the slice type dec are value-receiver methods on the pinned tree; the
+		// same method with a pointer receiver keeps its construct name
+		if star != "" && !(tn == "dec" && prefix == "") {
 			return fmt.Sprintf("%s(*%s).%s", prefix, tn, fn.Name())
 		}
 		return fmt.Sprintf("%s%s.%s", prefix, tn, fn.Name())
@@ -987,6 +1115,12 @@ func (m *Model) refOf(v ssa.Value, seen map[ssa.Value]bool) Ref {
 				r.Nil = true
 				return r
 			}
+			// (t, prec) := z.extraDigit(): result 0 of a constructor-like function is fresh
+			if cal != nil && m.isConstructor(cal) {
+				r.Fresh = true
+				r.Allocs = []ssa.Value{v}
+				return r
+			}
 		}
 		r.Unknown = true
 	default:
@@ -1110,6 +1244,20 @@ func (m *Model) SourceFiles() []*ast.File {
 				out = append(out, f)
 			}
 		}
+	}
+	return out
+}
+
+func mergeOverlay(a, b map[string][]byte) map[string][]byte {
+	if len(b) == 0 {
+		return a
+	}
+	out := map[string][]byte{}
+	for k, v := range a {
+		out[k] = v
+	}
+	for k, v := range b {
+		out[k] = v
 	}
 	return out
 }
